@@ -23,6 +23,17 @@ func c21(r *core.Run) {
 	n := la.CheckGuarded(r, "C21.Lk1", T, "peers", T+".mu", nil)
 	r.Floor("C21.Lk1", "accesses to PSlice.peers", n, 6)
 
+	psliceCopyOnWrite(r, "C21.W1")
+	psliceRules(r, "C21")
+}
+
+// psliceCopyOnWrite (C21.W1, also run as C29.W3): elements are only written into freshly
+// allocated bins. hive2.onFindNode (C29 "never repeats a peer") walks bin snapshots through
+// Kad.EachPeer / EachKnownPeer outside the set's lock: an in-place removal moves a peer into
+// a slot the walk has yet to read, and the reply lists that peer twice.
+func psliceCopyOnWrite(r *core.Run, rule string) {
+	w := r.W
+	const T = "pkg/topology/pslice.PSlice"
 	// W1: element stores / copy destinations that alias an existing bin
 	fromPeers := func(v ssa.Value) bool {
 		return core.DerivesFrom(v, func(x ssa.Value) bool { return loadsField(T, "peers")(x) }, nil)
@@ -76,10 +87,9 @@ func c21(r *core.Run) {
 		if bad != nil {
 			pos = bad.Pos()
 		}
-		r.Check("C21.W1", core.Key("C21.W1", fn, "no in-place write into a shared bin"), pos, bad == nil,
+		r.Check(rule, core.Key(rule, fn, "no in-place write into a shared bin"), pos, bad == nil,
 			"elements are only written into freshly allocated bins (copy-on-write), so a bin header read under the lock can be iterated without it",
 			"an element of an existing bin array is overwritten in place: EachBin/EachBinRev iterate bin snapshots outside the lock and would race")
 	}
-	r.Floor("C21.W1", "methods writing bin elements", nf, 2)
-	psliceRules(r, "C21")
+	r.Floor(rule, "methods writing bin elements", nf, 2)
 }
